@@ -16,13 +16,29 @@ theorem foldRemoveNat_ok : ∀ (L : List Nat) (f g : Forest), g.W → g.corrupt 
     have m := remove_ok w c
     exact foldRemoveNat_ok L f _ m.w (by rw [m.corrupt, hc])
 
+theorem W_of_roots_eq {f g : Forest} (w : f.W) (hr : g.roots = f.roots) (hn : g.next = f.next) :
+    g.W := by
+  refine ⟨?_, ?_, ?_⟩
+  · show (HTree.handlesList g.roots).Nodup; rw [hr]; exact w.nodup
+  · rw [hr]; exact w.leaves
+  · intro h hh
+    have : h ∈ HTree.handlesList g.roots := hh
+    rw [hr] at this
+    rw [hn]; exact w.below h this
+
 theorem removeInsignificantWhitespace_spec {f : Forest} (w : f.W) (n : Nat) :
     (f.removeInsignificantWhitespace n).W ∧
     (f.removeInsignificantWhitespace n).corrupt = f.corrupt := by
   unfold removeInsignificantWhitespace
   cases f.get? n with
   | none => exact ⟨w, rfl⟩
-  | some t => exact foldRemoveNat_ok _ f f w rfl
+  | some t =>
+    simp only
+    have w0 : Forest.W { f with consolidation := false } := W_of_roots_eq w rfl rfl
+    obtain ⟨h1, h2⟩ := foldRemoveNat_ok
+      ((descendantsNormal t).filter f.isInsignificantWhitespace) f
+      { f with consolidation := false } w0 rfl
+    exact ⟨W_of_roots_eq h1 rfl rfl, h2⟩
 
 /-- The three clauses, or the documented panic with nothing changed. -/
 theorem call_clauses {f : Forest} (hi : f.Inv) (c : Call) (hl : c.liveArgs f) :
